@@ -915,6 +915,16 @@ class Server(Node):
             app.placement_expiry = time.time() + app.lease
         return True
 
+    def check_app_affinity_limit_up(self, app):
+        """Check app affinity limits on all the ancestors of the server.
+        """
+        node = self.parent
+        while node:
+            if not node.check_app_affinity_limit(app):
+                return False
+            node = node.parent
+        return True
+
     def restore(self, app, placement_expiry=None):
         """Put app back on the server, ignore app lifetime.
         """
@@ -1687,7 +1697,8 @@ class Cell(Bucket):
 
                 evicted_from, app_expiry = evicted[app]
                 del evicted[app]
-                if evicted_from.restore(app, app_expiry):
+                if (evicted_from.check_app_affinity_limit_up(app) and
+                        evicted_from.restore(app, app_expiry)):
                     app.evicted = False
                     continue
 
@@ -1726,9 +1737,10 @@ class Cell(Bucket):
                                             evicted_app.placement_expiry)
                     evicted_app_server.remove(evicted_app.name)
 
-                    # TODO: we need to check affinity limit constraints on
-                    #       each level, all the way to the top.
-                    if evicted_app_server.put(app):
+                    # Server.put only checks the server level limit, check
+                    # the limits of each level above, all the way to the top.
+                    if (evicted_app_server.check_app_affinity_limit_up(app) and
+                            evicted_app_server.put(app)):
                         break
 
             # Placement failed.
